@@ -173,14 +173,20 @@ def spec_level(c, models, quick, rnd):
     for k, e in enumerate(sample):
         text = docgen.render_xta(e["m"], abbreviate=(k % 2 == 0))
         docs.append({"id": "s%d" % k, "toks": sc.scan(text, TYPENAMES), "exp": e["exp"]})
+        if k % (5 if quick else 8) == 0:
+            docs[-1].update(text=list(text), types=sorted(TYPENAMES))        # these are scanned by Lex.tla itself: characters -> tokens -> callbacks -> document, all at spec level
         jobs.append({"id": "s%d" % k, "entry": "xta", "text": text, "positions": True, "analysis": False, "walk": False, "timeout": 60})
     path = os.path.join(c.run_dir, "xtadocs.ndjson")
     vf.write_ndjson(path, docs)
-    mc = vf.run_tlc("MirrorXTA", "XmlReader.cfg", c.run_dir, env={"LR_TABLES": os.path.join(gen, "lr_tables.json"), "XTA_DOCS": path}, timeout=3000, xmx="16g", workers=1, keep_out=False)
+    mc = vf.run_tlc("MirrorXTA", "XmlReader.cfg", c.run_dir, env={"LR_TABLES": os.path.join(gen, "lr_tables.json"), "XTA_DOCS": path, "LEX_RULES": os.path.join(gen, "lexer_rules.json"), "LEXEMES": os.path.join(gen, "lexemes.json")}, timeout=3000, xmx="16g", workers=1, keep_out=False)
     c.add_tlc("MirrorXTA", mc, "whole .xta files of %d models through the extracted automaton and the transcribed builder: Accepted, MirrorsM" % len(docs))
     out = {e["id"]: e for e in mc.emitted if "graphs" in e}
     if len(out) != len(docs):
         raise vf.MachineryError("MirrorXTA evaluated %d of %d documents" % (len(out), len(docs)))
+    bad = [o["id"] for o in out.values() if not o["lexagree"]]
+    if bad:
+        raise vf.MachineryError("Lex.tla (the scanner over the rules extracted from lexer.l) and lib/xtalex.py make different token strings of the .xta text of %s" % bad[:3])
+    c.cov["spec_level_xta_documents_scanned_by_Lex_tla"] = len([o for o in out.values() if o["scanned"]])
     res = vf.run_jobs(jobs, c.run_dir, variant="plain", harness="record", name="xtarec")
     ndrift = ncb = 0
     for d, j in zip(docs, jobs):
